@@ -9,12 +9,12 @@ for i in ids:
         na.append(dict(property_id=i, reason=(P or {}).get('na_reason', 'check not built yet (work in progress)'))); continue
     checks.append(dict(property_id=i, quick_cmd='python3 check.py %s --tier quick' % i, thorough_cmd='python3 check.py %s --tier thorough' % i,
         evidence_file='/verif/evidence/%s.json' % i, replay_cmd_template='python3 replay.py {path}', engine='irsym',
-        level_claimed=dict(category=P.get('level', 'model_checking'), text=P.get('level_text', 'bounded symbolic model checking of the compiled real code: z3 decides every schedule/input within the stated bounds'), design_ref='DESIGN.md §4 ' + i),
+        level_claimed=dict(category=P.get('level', 'model_checking'), text=P.get('level_text', 'bounded symbolic model checking of the compiled real code: z3 decides every schedule/input within the stated bounds') + ' Bounds: ' + str(P.get('bounds', 'per harness, see evidence')) + ' Outside the claim: ' + str(P.get('outside', 'everything beyond the bounds')), design_ref='DESIGN.md §7.3 ' + i + ' (design: §4 ' + i + ')'),
         level_note=P.get('level_note', 'trusted: clang-14 front end, own IR interpreter (validated by concrete replays), z3; SC memory model; bounds per harness in evidence'),
-        technique='solver-based bounded symbolic execution of LLVM IR (IRSYM, z3 bit-blast+SAT), schedules and inputs symbolic'))
+        technique=P.get('technique', 'solver-based bounded symbolic execution of the LLVM IR of the real code (IRSYM): schedules, inputs and fault points are z3 variables, z3 QF_FD decides, counterexamples are replayed concretely')))
 m = dict(version=1, setup_cmd='python3 setup_check.py',
   hooks=dict(guard='UNIFEX_VERIF', enable='harness TUs are compiled by clang++-14 with -DUNIFEX_VERIF -I/repo/include (no library build needed)',
-    baseline_off_cmd='cmake -G Ninja -S /repo -B /repo/_build -DCMAKE_BUILD_TYPE=RelWithDebInfo -DCMAKE_CXX_FLAGS=-Wno-error -DUNIFEX_USE_SYSTEM_GTEST=ON && cmake --build /repo/_build -j16 && ctest --test-dir /repo/_build -j8 --timeout 900',
+    baseline_off_cmd='cmake -G Ninja -S /repo -B /repo/_build -DCMAKE_BUILD_TYPE=RelWithDebInfo -DCMAKE_CXX_FLAGS="-Wno-error -Wno-error=maybe-uninitialized" -DUNIFEX_USE_SYSTEM_GTEST=ON && cmake --build /repo/_build -j16 && ctest --test-dir /repo/_build -j8 --timeout 900',
     source_commits=['bd98c48'], add_only=True),
   engines=[dict(name='irsym', path='engine/irsym.py', serves_properties=[c['property_id'] for c in checks],
     kind_free_text='own bounded symbolic model checker over clang-14 LLVM IR of the real code; schedules, inputs, fault points are z3 variables')],
